@@ -40,6 +40,14 @@ def pyval(expr):
     return eval(expr, {"__builtins__": {}}, {"float": float})
 
 
+def encodable(t):
+    try:
+        t.encode("utf-8")
+        return True
+    except UnicodeEncodeError:
+        return False
+
+
 def identity(s):
     return s
 
@@ -116,8 +124,12 @@ with open(sys.argv[2]) as f, open(sys.argv[3], "a") as out:
             vt = c["value_text"]
             dt = c.get("data_text")
             args = (vt,) if dt is None else (vt, dt)
-            rec["value_text"] = vt
-            rec["data_text"] = dt
+            # a str that is not valid Unicode (an unpaired surrogate) is not a text at all: for
+            # the model it is simply unparsable
+            if not encodable(vt) or (dt is not None and not encodable(dt)):
+                rec["case"] = {k: c[k] for k in ("i", "tag", "entry", "deser") if k in c}
+            rec["value_text"] = vt if encodable(vt) else "\x00not-unicode"
+            rec["data_text"] = dt if dt is None or encodable(dt) else "\x00not-unicode"
             raw = call(lambda: jsonlogic_rs.apply_serialized(*args, deserializer=identity))
             if c["deser"] == "default":
                 got = call(lambda: jsonlogic_rs.apply_serialized(*args))
